@@ -58,6 +58,7 @@ pub fn any_finite() -> BoxedStrategy<f64> {
         2 => scaled(-60, 60),
         1 => scaled(-1022, 1023),
         1 => scaled(-1074, -1023),
+        1 => from_table(&[f64::MAX / 7.0, -f64::MAX / 7.0, f64::MAX / 7.0 * 0.9999, f64::MAX / 3.0, f64::MAX / 5.0, f64::MAX / 6.0, -f64::MAX / 6.0, f64::MAX / 2.0, 3.3e307, 2.4e307, -2.3e307, 4.0e307, 8.9e307]),
         1 => from_table(&[f64::MAX, -f64::MAX, f64::MIN_POSITIVE, -f64::MIN_POSITIVE, 5e-324, -5e-324, 0.0, -0.0,
                           f64::EPSILON, 1.0 + f64::EPSILON, 1.0 - f64::EPSILON / 2.0, 9007199254740992.0, 9007199254740993.0e0]),
     ]
